@@ -16,7 +16,7 @@ def run(chk):
     chk.assumptions = ['a refused request has no effect on the address space (the shim does not forward it)', 'refusal patterns: one refused request at position k, or every request from position k on',
                        'in the model the OS layer is "honest": access is revoked by a purge only when it also reports that a re-commit is needed (checked on every direct-drive step)']
     chk.extra['rule'] = ('obligations = theorems of Props/C07.lean; evaluations = direct-drive steps replayed through the model + children of the refusal enumeration; distinct = (build, workload, row, mode, k) and step lines')
-    chk.lean('MiVerif.Props.C07', ['Arith', 'Commit'])
+    chk.lean('MiVerif.Props.C07', ['Arith', 'Commit', 'ArenaGen'])
     okd, exe, log = V.build_driver()
     if not okd:
         chk.broken_tie('lean driver does not build', log[-1500:])
